@@ -649,11 +649,14 @@ func cmdRun(args []string) int {
 		}
 		return viols[i].Scenario < viols[j].Scenario
 	})
-	if len(harnessErrs) > 0 {
+	if len(harnessErrs) > 0 && len(viols) == 0 {
 		for _, h := range harnessErrs {
 			fmt.Println("HARNESS-ERROR:", h)
 		}
 		return 2
+	}
+	for _, h := range harnessErrs {
+		fmt.Println("NOTE (harness error next to violations):", oneLine(h, 300))
 	}
 	// classify violations
 	os.MkdirAll(filepath.Join(verifDir, "replays"), 0o755)
